@@ -162,3 +162,39 @@ def write_read(ds, reader, **kw):
     b = io.BytesIO()
     ds.save_as(b)
     return reader(b.getvalue(), **kw) if not kw.pop('as_file', False) else reader(io.BytesIO(b.getvalue()), **kw)
+
+
+def ct_multiframe(zs, rows, cols, orientation=(1, 0, 0, 0, 1, 0), spacing=(1.0, 1.0)):
+    """One Enhanced-CT-like multi-frame source (built from ct_image.dcm) with
+    frame i at patient position (0, 0, zs[i]).  Added for C01."""
+    from pydicom.dataset import Dataset
+    ds = base('ct_image.dcm')
+    for kw in ('ImagePositionPatient', 'ImageOrientationPatient', 'PixelSpacing', 'SliceThickness',
+               'SliceLocation', 'RescaleIntercept', 'RescaleSlope', 'RescaleType'):
+        if kw in ds:
+            delattr(ds, kw)
+    ds.SOPClassUID = '1.2.840.10008.5.1.4.1.1.2.1'
+    ds.file_meta.MediaStorageSOPClassUID = ds.SOPClassUID
+    ds.SOPInstanceUID = uid()
+    ds.file_meta.MediaStorageSOPInstanceUID = ds.SOPInstanceUID
+    ds.Rows, ds.Columns = int(rows), int(cols)
+    ds.NumberOfFrames = len(zs)
+    sh = Dataset()
+    pm = Dataset()
+    pm.PixelSpacing = [float(x) for x in spacing]
+    pm.SliceThickness = 1.0
+    sh.PixelMeasuresSequence = [pm]
+    po = Dataset()
+    po.ImageOrientationPatient = [float(x) for x in orientation]
+    sh.PlaneOrientationSequence = [po]
+    ds.SharedFunctionalGroupsSequence = [sh]
+    pf = []
+    for z in zs:
+        it = Dataset()
+        pp = Dataset()
+        pp.ImagePositionPatient = [0.0, 0.0, float(z)]
+        it.PlanePositionSequence = [pp]
+        pf.append(it)
+    ds.PerFrameFunctionalGroupsSequence = pf
+    ds.PixelData = np.zeros((len(zs), rows, cols), np.int16).tobytes()
+    return ds
